@@ -72,7 +72,7 @@ def run(ctx):
     ctx.assumptions += ["byte/row/column quantities < 2^32", "theorems assume Summarized/shapeOK of C02 (checked on every real tree by ./check C02)"]
     ctx.extra_lean_dirs = ["C02"]
     ctx.regen()
-    ctx.prove(["TsVerif.C06.Props", "TsVerif.C06.CursorProps", "TsVerif.C06.NodeProps", "TsVerif.C06.SiblingZw", "TsVerif.C06.NavVariants", "TsVerif.C06.FlatProps", "TsVerif.C06.FieldProps", "TsVerif.C06.SiblingNamed", "TsVerif.C06.SiblingNamedNext", "TsVerif.C06.NamedFcb"], "TsVerif/C06/Audit.lean")
+    ctx.prove(["TsVerif.C06.Props", "TsVerif.C06.CursorProps", "TsVerif.C06.NodeProps", "TsVerif.C06.SiblingZw", "TsVerif.C06.NavVariants", "TsVerif.C06.FlatProps", "TsVerif.C06.FieldProps", "TsVerif.C06.SiblingNamed", "TsVerif.C06.SiblingNamedNext", "TsVerif.C06.NamedFcb", "TsVerif.C06.CursorFcb"], "TsVerif/C06/Audit.lean")
     driver = ctx.build_driver("tsv-c06")
     explorer = ctx.cargo_bin("c06")
     langdump = ctx.cunit("cunit_c02")
@@ -117,7 +117,7 @@ def run(ctx):
     hidden_missing_trees = 0
     unsorted_langs = set()
     par = {"parchk": 0, "parzw": 0, "parbad": 0, "parflat": 0, "nschk": 0, "nsout": 0, "nsbad": 0, "nsflat": 0,
-           "pschk": 0, "psout": 0, "psbad": 0, "psflat": 0, "nnschk": 0, "nnsout": 0, "nnsbad": 0, "nnsflat": 0, "npschk": 0, "npsout": 0, "npsbad": 0, "npsflat": 0, "cbfchk": 0, "cbfout": 0, "cbfbad": 0, "cbfflat": 0, "nfcbchk": 0, "nfcbout": 0, "nfcbbad": 0, "nfcbflat": 0, "ndfrchk": 0, "ndfrbad": 0, "ndfrflat": 0, "pdfrchk": 0, "pdfrbad": 0, "pdfrflat": 0, "znschk": 0, "znsout": 0, "znsbad": 0, "zpschk": 0, "zpsout": 0, "zpsbad": 0, "pgenbad": 0, "znsoutpar": 0, "znsoutfollow": 0, "znsoutzw": 0, "zpsoutpar": 0, "zpsoutid": 0, "zpsoutzw": 0, "fcbchk": 0, "fcbout": 0, "fcbbad": 0, "fcbflat": 0, "dfrchk": 0, "dfrbad": 0, "dfrflat": 0}
+           "pschk": 0, "psout": 0, "psbad": 0, "psflat": 0, "cfcchk": 0, "cfcout": 0, "cfcbad": 0, "cfcflat": 0, "nnschk": 0, "nnsout": 0, "nnsbad": 0, "nnsflat": 0, "npschk": 0, "npsout": 0, "npsbad": 0, "npsflat": 0, "cbfchk": 0, "cbfout": 0, "cbfbad": 0, "cbfflat": 0, "nfcbchk": 0, "nfcbout": 0, "nfcbbad": 0, "nfcbflat": 0, "ndfrchk": 0, "ndfrbad": 0, "ndfrflat": 0, "pdfrchk": 0, "pdfrbad": 0, "pdfrflat": 0, "znschk": 0, "znsout": 0, "znsbad": 0, "zpschk": 0, "zpsout": 0, "zpsbad": 0, "pgenbad": 0, "znsoutpar": 0, "znsoutfollow": 0, "znsoutzw": 0, "zpsoutpar": 0, "zpsoutid": 0, "zpsoutzw": 0, "fcbchk": 0, "fcbout": 0, "fcbbad": 0, "fcbflat": 0, "dfrchk": 0, "dfrbad": 0, "dfrflat": 0}
     ns_bad_cases = []
     par_bad_cases = []
     per_clause = {}
@@ -154,7 +154,7 @@ def run(ctx):
                 or int(kv.get("psflat", "0") or 0) or int(kv.get("fcbbad", "0") or 0) or int(kv.get("fcbflat", "0") or 0)
                 or int(kv.get("dfrbad", "0") or 0) or int(kv.get("dfrflat", "0") or 0) or int(kv.get("znsbad", "0") or 0)
                 or int(kv.get("zpsbad", "0") or 0) or int(kv.get("pgenbad", "0") or 0)
-                or any(int(kv.get(k, "0") or 0) for k in ["nnsbad", "nnsflat", "npsbad", "npsflat", "cbfbad", "cbfflat", "nfcbbad", "nfcbflat", "ndfrbad", "ndfrflat", "pdfrbad", "pdfrflat"])) and len(ns_bad_cases) < 3:
+                or any(int(kv.get(k, "0") or 0) for k in ["cfcbad", "cfcflat", "nnsbad", "nnsflat", "npsbad", "npsflat", "cbfbad", "cbfflat", "nfcbbad", "nfcbflat", "ndfrbad", "ndfrflat", "pdfrbad", "pdfrflat"])) and len(ns_bad_cases) < 3:
             ns_bad_cases.append("%s: %s" % (cid, specs.get(cid, "")[:120]))
         fan = int(kv.get("fanout", "0") or 0)
         max_fanout = max(max_fanout, fan)
@@ -237,6 +237,12 @@ def run(ctx):
                par["dfrbad"] == 0 and (par["dfrchk"] > 0 or evals == 0 or bool(ctx.replay)), "%d ranges checked, %d bad %s" % (par["dfrchk"], par["dfrbad"], "; ".join(ns_bad_cases)))
     ctx.oblige("corr:dfrIdeal=smallest-spanning-node-of-the-flattened-tree(on every range checked)", par["dfrflat"] == 0,
                "%d differ %s" % (par["dfrflat"], "; ".join(ns_bad_cases)))
+    ctx.oblige("corr:cursor_first_child_for_spec-conclusion-holds-wherever-ndeCur-holds(every goto_first_child_for_byte/point question: no dead-end descent; "
+               "port = plain search cfcIdeal) and cfcIdeal=FT.cursorFirstChildFor(index and node)",
+               par["cfcbad"] == 0 and par["cfcflat"] == 0 and (par["cfcchk"] > 0 or evals == 0 or bool(ctx.replay)),
+               "%d (cursor, goal) pairs checked, %d outside (dead end: finding cursor-first-child-for-byte-dead-end), %d bad, %d differ from flatten %s"
+               % (par["cfcchk"], par["cfcout"], par["cfcbad"], par["cfcflat"], "; ".join(ns_bad_cases)))
+    ctx.coverage["cursor_first_child_for_spec"] = {k: par[k] for k in ["cfcchk", "cfcout", "cfcbad", "cfcflat"]}
     ctx.oblige("corr:next_sibling_spec_anon-NAMED-flag(ts_node_next_named_sibling; every relevant node of any width with nsPathOK, for zero-width nodes nsZwOKA, tree satisfies anonLeafOK): "
                "port = first NAMED element of laterOnPath = FT.nextSibling namedOnly",
                par["nnsbad"] == 0 and par["nnsflat"] == 0 and (par["nnschk"] > 0 or evals == 0 or bool(ctx.replay)),
